@@ -85,15 +85,13 @@ func (s *serviceImpl) ServiceID() uint32 {
 
 // Add is used to add an object to a service domain.
 func (s *serviceImpl) Add(obj Actor) (index uint32, err error) {
-	// assign the first object to the index 0. following objects will
-	// be assigned random values.
+	// objects are assigned random values. 0 and 1 are reserved (1 is
+	// the main object of the service).
 	s.Lock()
-	if _, ok := s.objects[1]; ok {
-		index = (rand.Uint32() << 1) >> 1
-		if _, ok = s.objects[index]; ok {
-			s.Unlock()
-			return s.Add(obj)
-		}
+	index = (rand.Uint32() << 1) >> 1
+	if _, ok := s.objects[index]; ok || index < 2 {
+		s.Unlock()
+		return s.Add(obj)
 	}
 	if s.session == nil { // service not yet activated
 		s.objects[index] = obj
